@@ -136,6 +136,8 @@ func c02ModeUses(c *Ctx, m *Module) {
 								}
 							}
 							r.Check("C02.mode-uses", site+"/mode passed to logging", m.Pos(x.Pos()), okLog, "mode stored into an argument list must be that of a logging/formatting call")
+						} else if fa, isFA := x.Addr.(*ssa.FieldAddr); isFA && fieldNeverRead(fn.Prog, fa) {
+							// kept in a field nothing ever reads (a diagnostic copy): no use of the mode at all
 						} else {
 							r.Check("C02.mode-uses", site+"/mode stored to "+describe(x.Addr), m.Pos(x.Pos()), false, "the mode string must not be stored; only compared, logged or returned")
 						}
